@@ -221,6 +221,15 @@ def gen_las(rng, version, tails=()):
     for _ in range(rng.choice([0, 0, 0, 1, 2, 5])):
         pre.append(rng.choice(['', '   ', '# ' + rprintable(rng, rng.randint(0, 40), NAME_CHARS).decode(), '#', '\t']))
     mid = [rng.choice(['', '# comment', '  '])] if rng.random() < 0.2 else []
+    # the position of the version line must not matter: long runs of comment / blank lines (several KB) before ~V
+    # and between ~V and VERS ("the answer does not depend on the file's data content or size")
+    if rng.random() < 0.15:
+        big = ['#' + rprintable(rng, rng.randint(30, 120), NAME_CHARS).decode() if rng.random() < 0.8 else ' ' * rng.randint(0, 80)
+               for _ in range(rng.choice([12, 40, 150, 600]))]
+        if rng.random() < 0.5:
+            pre = pre + big
+        else:
+            mid = mid + big
     lines = pre + [head + (sp(0, 4) if rng.random() < 0.3 else '') + ('  # trailing comment' if rng.random() < 0.1 else '')] + mid + [vers, wrap]
     body_style = rng.randrange(4)
     if body_style == 0 and tails:
